@@ -15,13 +15,25 @@ output is a deterministic function of the four items above; the only order the c
 the real container), and the order `0..n` of `vertex_ids()`.
 
 Vectors used as stacks (`container`, `component`) are lists with the head = the element pushed last.
-The recursion of `depth_first_search` is a fuelled structural recursion (`fuel` bounds the recursion
-*depth*); exhausting the fuel is the explicit outcome `Err.diverges`, and `Proofs/Scc.lean` shows that the
-fuel supplied by `allScc` is enough on every `Graph` value whatsoever (`allScc_ne_diverges`).  A real stack
-overflow on deep recursion is outside the model.
 
-No imports: this file is linked into the driver executable.
+Two formulations of the searches, proved equal on every input (`Proofs/Scc.lean`, `allSccIter_eq`):
+* `dfsIter` / `iterLoop` is the code as it is since /repo 1dee70f: `directed_depth_first_search` keeps an
+  explicit list of frames (vertex, incident edges still to follow) and loops `while let Some(frame) =
+  frames.last_mut()`; `fuel` bounds the number of turns of that loop.  This is what the driver runs.
+* `dfsG` is the recursive formulation the code had before (one call per vertex of the search tree, `fuel`
+  bounds the recursion depth); the Kosaraju proof is carried out on it.
+Exhausting the fuel is the explicit outcome `Err.diverges`; the fuel supplied by `allScc` / `allSccIter` is
+shown to be enough on every `Graph` value whatsoever (`allScc_ne_diverges`, `allSccIter_eq`).  The recursive
+code overflowed the call stack on deep search trees (finding fixed by 1dee70f); the frame list of the current
+code lives on the heap.
+
+The only import is the graph model of C15 (`Model/Graph.lean`: the `Graph` accessors and the loader), used at
+the end of this file to state which accessors the analysis goes through (`Graph.ofNet`) and to model the
+accessors C15 does not (`incident_edges_iter`, `out_/in_edges_iter`, `incident_triplet_attributes`).
+This file is linked into the driver executable.
 -/
+import Compass.Model.Graph
+
 namespace Compass
 namespace Scc
 
@@ -70,6 +82,30 @@ def dfsG (inc : Nat → List Nat) (far : Nat → Option Nat) : Nat → Nat → S
       | .error x => .error x
       | .ok (vis', st') => .ok (vis', v :: st')
 
+/-- a frame of `directed_depth_first_search`: the vertex and those of its incident edges not yet followed
+(the code keeps the whole edge list and the position of the next edge) -/
+abbrev Frame := Nat × List Nat
+
+/-- `while let Some((current, edges, next)) = frames.last_mut() { … }`: follow the next edge of the top frame
+(`?` on a missing edge record; a far end not yet visited is marked and gets a frame of its own), or, when the
+top frame has no edge left, push its vertex on `stack` and drop the frame.  `fuel` = number of turns. -/
+def iterLoop (inc : Nat → List Nat) (far : Nat → Option Nat) : Nat → List Frame → St → Except Err St
+  | _, [], s => .ok s
+  | 0, _ :: _, _ => .error .diverges
+  | f + 1, (v, []) :: fr, (vis, st) => iterLoop inc far f fr (vis, v :: st)
+  | f + 1, (v, e :: es) :: fr, (vis, st) =>
+    match far e with
+    | none => .error .edgeNotFound
+    | some w =>
+      if vis.contains w then iterLoop inc far f ((v, es) :: fr) (vis, st)
+      else iterLoop inc far f ((w, inc w) :: (v, es) :: fr) (w :: vis, st)
+
+/-- `directed_depth_first_search` (since /repo 1dee70f) -/
+def dfsIter (inc : Nat → List Nat) (far : Nat → Option Nat) (fuel v : Nat) : St → Except Err St
+  | (vis, st) =>
+    if vis.contains v then .ok (vis, st)
+    else iterLoop inc far fuel [(v, inc v)] (v :: vis, st)
+
 def dfs (g : Graph) : Nat → Nat → St → Except Err St := dfsG g.outEdges g.dstOf
 def rdfs (g : Graph) : Nat → Nat → St → Except Err St := dfsG g.inEdges g.srcOf
 
@@ -97,6 +133,43 @@ def allScc (g : Graph) : Except Err (List (List Nat)) :=
   | .error x => .error x
   | .ok (_, st) => pass2 g st [] []
 
+/-! #### the same two passes over the frame-list searches (the code as it is) -/
+
+/-- every vertex id a search can meet: `0 .. n-1` and the end points of the edge records -/
+def Graph.universe (g : Graph) : List Nat :=
+  List.range g.n ++ g.edges.toList.map (·.1) ++ g.edges.toList.map (·.2)
+
+/-- budget of loop turns of one search: one turn per incident edge of every vertex plus one to finish it -/
+def Graph.turns (g : Graph) : Nat :=
+  (g.universe.map (fun u => (g.outEdges u).length + (g.inEdges u).length + 1)).sum
+
+/-- the searches with a budget of `t` turns -/
+def dfsT (g : Graph) (t : Nat) : Nat → St → Except Err St := dfsIter g.outEdges g.dstOf t
+def rdfsT (g : Graph) (t : Nat) : Nat → St → Except Err St := dfsIter g.inEdges g.srcOf t
+
+/-- `depth_first_search` / `reverse_depth_first_search` with the model's budget -/
+def dfsI (g : Graph) : Nat → St → Except Err St := dfsT g g.turns
+def rdfsI (g : Graph) : Nat → St → Except Err St := rdfsT g g.turns
+
+def pass1T (g : Graph) (t : Nat) : Except Err St :=
+  forEach (dfsT g t) some (List.range g.n) ([], [])
+
+def pass2T (g : Graph) (t : Nat) : List Nat → List Nat → List (List Nat) → Except Err (List (List Nat))
+  | [], _, acc => .ok acc.reverse
+  | v :: st, vis, acc =>
+    if vis.contains v then pass2T g t st vis acc
+    else
+      match rdfsT g t v (vis, []) with
+      | .error x => .error x
+      | .ok (vis', comp) => pass2T g t st vis' (comp.reverse :: acc)
+
+/-- `all_strongly_connected_componenets`, over the frame-list searches (the budget is computed once) -/
+def allSccIter (g : Graph) : Except Err (List (List Nat)) :=
+  let t := g.turns
+  match pass1T g t with
+  | .error x => .error x
+  | .ok (_, st) => pass2T g t st [] []
+
 /-- the selection loop of `largest_strongly_connected_component`: strict `>` keeps the first of equals -/
 def largestOf (cs : List (List Nat)) : List Nat :=
   cs.foldl (fun best c => if c.length > best.length then c else best) []
@@ -107,15 +180,22 @@ def largestScc (g : Graph) : Except Err (List Nat) :=
   | .error x => .error x
   | .ok cs => .ok (largestOf cs)
 
+/-- `largest_strongly_connected_component`, over the frame-list searches -/
+def largestSccIter (g : Graph) : Except Err (List Nat) :=
+  match allSccIter g with
+  | .error x => .error x
+  | .ok cs => .ok (largestOf cs)
+
 /-! ### well-formedness (what `graph_loader` establishes): executable -/
 
-/-- `adj`/`rev` have one slot per vertex, every edge joins existing vertices, and slot `v` of `adj`
-(`rev`) holds exactly the ids of the edges leaving (entering) `v`, in any order. -/
+/-- every edge joins existing vertices, every slot of `adj` (`rev`) names only edges that leave (enter) that
+vertex, and every edge is named by the slot of its source and of its destination — slots in any order, and any
+number of slots (the loader sizes the tables with the declared / scanned vertex count, which may exceed the
+number of vertex rows; surplus slots are then empty, missing slots belong to vertices without edges). -/
 def Graph.wfb (g : Graph) : Bool :=
-  g.adj.size == g.n && g.rev.size == g.n &&
   g.edges.toList.all (fun p => decide (p.1 < g.n) && decide (p.2 < g.n)) &&
-  (List.range g.n).all (fun v => (g.outEdges v).all (fun e => g.srcOf e == some v)) &&
-  (List.range g.n).all (fun v => (g.inEdges v).all (fun e => g.dstOf e == some v)) &&
+  (List.range g.adj.size).all (fun v => (g.outEdges v).all (fun e => g.srcOf e == some v)) &&
+  (List.range g.rev.size).all (fun v => (g.inEdges v).all (fun e => g.dstOf e == some v)) &&
   (List.range g.edges.size).all (fun e =>
     match g.edges[e]? with
     | none => false
@@ -155,5 +235,57 @@ def isSccPartition (g : Graph) (cs : List (List Nat)) : Bool :=
   cs.flatten.all (fun v => decide (v < g.n)) &&
   cs.all (fun c => c.all (fun u => (List.range g.n).all (fun v => c.contains v == mutualIn tbl u v)))
 
+/-! ### the analysis reads a network only through these accessors of `graph.rs` -/
+
+/-- what `scc.rs` sees of a network value: `vertex_ids()`, the `keys()` of every slot (`out_edges`,
+`in_edges`), and the end points of the edge records (`src_vertex_id`, `dst_vertex_id`) -/
+def Graph.ofNet {α : Type} (g : Compass.Graph α) : Graph :=
+  { n := g.nVertices,
+    edges := (g.edges.map (fun e => (e.src, e.dst))).toArray,
+    adj := (g.adj.map adjKeys).toArray,
+    rev := (g.rev.map adjKeys).toArray }
+
 end Scc
+
+/-! ### accessors of `graph.rs` that `Model/Graph.lean` does not model -/
+
+namespace Graph
+variable {α : Type}
+
+/-- `out_edges_iter`: `out_edges` is `self.out_edges_iter(src).cloned().collect_vec()` -/
+def outEdgesIter (g : Graph α) (v : Nat) : List Nat := g.outEdges v
+/-- `in_edges_iter` -/
+def inEdgesIter (g : Graph α) (v : Nat) : List Nat := g.inEdges v
+
+/-- `incident_edges_iter` -/
+def incidentEdgesIter (g : Graph α) (v : Nat) : Direction → List Nat
+  | .forward => g.outEdgesIter v
+  | .reverse => g.inEdgesIter v
+
+/-- the `.map(..).collect::<Result<Vec<_>, _>>()` of `incident_triplet_attributes`: per triplet the vertex of
+the first id, the edge, the vertex of the third id, in that order; the first error wins -/
+def tripletAttrsGo (g : Graph α) : List (Nat × Nat × Nat) → Except NetErr (List (Vertex α × Edge α × Vertex α))
+  | [] => .ok []
+  | (s, e, d) :: r =>
+    match g.getVertex s with
+    | .error x => .error x
+    | .ok sv =>
+      match g.getEdge e with
+      | .error x => .error x
+      | .ok ed =>
+        match g.getVertex d with
+        | .error x => .error x
+        | .ok dv =>
+          match tripletAttrsGo g r with
+          | .error x => .error x
+          | .ok l => .ok ((sv, ed, dv) :: l)
+
+/-- `incident_triplet_attributes` -/
+def incidentTripletAttributes (g : Graph α) (v : Nat) (d : Direction) :
+    Except NetErr (List (Vertex α × Edge α × Vertex α)) :=
+  match g.incidentTripletIds v d with
+  | .error x => .error x
+  | .ok l => tripletAttrsGo g l
+
+end Graph
 end Compass
